@@ -80,10 +80,10 @@ example (c : Cfg) (k : Backing) : ∃ cv wm, GenFn.CompactVector.from_slice c #[
   · rw [gq 1 7 6 (by decide) (by decide)]; rfl
   · rw [gq 1 9 0 (by decide) (by decide)]; rfl
 
--- closed evaluation of the generated functions (checked build, `BitVector` backing): the values in both ranges
+-- closed evaluation of the generated functions (checked build, `Rank9Sel` backing): the values in both ranges
 set_option maxRecDepth 100000 in
 example : ((GenFn.CompactVector.from_slice ⟨true, false⟩ #[3, 1, 4, 1, 5]).bind fun r => (RS.unwrapRes r).bind fun cv =>
-      ((gen .bv).new ⟨true, false⟩ cv).bind fun r => (RS.unwrapRes r).bind fun wm =>
-      ((gen .bv).quantile ⟨true, false⟩ wm (0, 5) 2).bind fun a =>
-      ((gen .bv).intersect ⟨true, false⟩ wm #[(0, 3), (2, 5)] 1).bind fun b => .ok (a, b)) = .ok (some 3, some #[1, 4]) := by rfl
+      ((gen .r9).new ⟨true, false⟩ cv).bind fun r => (RS.unwrapRes r).bind fun wm =>
+      ((gen .r9).quantile ⟨true, false⟩ wm (0, 5) 2).bind fun a =>
+      ((gen .r9).intersect ⟨true, false⟩ wm #[(0, 3), (2, 5)] 1).bind fun b => .ok (a, b)) = .ok (some 3, some #[1, 4]) := by rfl
 end Sucds.C06Gen
